@@ -109,6 +109,12 @@ def _sources(tier):
     if tier in _SRC:
         return _SRC[tier]
     out = [("generated", _generated_deck())]
+    try:
+        from .c06 import _awkward_deck
+
+        out.append(("slide_parts_named_7_3_9", _awkward_deck()))  # slide parts not numbered in presentation order (renamed on first access to .slides)
+    except Exception:
+        pass
     for f in _corpus(tier):
         out.append((os.path.basename(f), open(f, "rb").read()))
     _SRC[tier] = out
@@ -660,6 +666,32 @@ def _native_traversal(tier="quick", seed=0):
                              "replay": {"confirmed": True, "witness_class": "accessor-mutates",
                                         "detail": "%s: during a read-only traversal, reading %s.%s made a non-empty change in %s" % (dname, wc, wn, diff[:3] or "relationships"),
                                         "input": [dname, owner, wn]}})
+    # pass 3b: a save BEFORE the first access to .slides (which renames slide parts), then reading, then saving again
+    bad3b = None
+    for dname, data in srcs:
+        ref2 = Presentation(io.BytesIO(data))
+        _ = ref2.slides
+        b3 = io.BytesIO()
+        ref2.save(b3)
+        want = _fingerprint(Presentation(io.BytesIO(b3.getvalue())))
+        prs = Presentation(io.BytesIO(data))
+        prs.save(io.BytesIO())
+        _ = prs.slides
+        _walk(prs, lambda o, n: getattr(o, n), skip=skip | known_mut, budget=600)
+        b1 = io.BytesIO()
+        prs.save(b1)
+        prs.save(io.BytesIO())
+        evals += 1
+        got = _fingerprint(Presentation(io.BytesIO(b1.getvalue())))
+        if got != want:
+            diff = [k for k in want[0] if got[0].get(k) != want[0][k]] + [k for k in got[0] if k not in want[0]]
+            bad3b = bad3b or "%s: open, save, read, save gives a deck that differs from open, read, save in %s" % (dname, diff[:4] or "relationships")
+    rec3b = {"name": "C12.native.save_before_reading_then_read_and_save", "base": "C12.native.save_before_reading_then_read_and_save", "kind": "bounded", "backend": "native", "time": 0, "path": 0,
+             "status": "refuted" if bad3b else "discharged"}
+    if bad3b:
+        rec3b["replay"] = {"confirmed": True, "witness_class": "traversal-changes-deck", "detail": bad3b}
+        rec3b["model"] = None
+    obls.append(rec3b)
     # pass 4: look-up methods (index, get, get_by_name, membership, positional access) with members of the collection, with members
     # of OTHER collections of the same kind (foreign arguments), with positions and names that do not exist
     bad4 = None
